@@ -190,10 +190,16 @@ impl WorkspaceManager {
             {
                 let mut analysis = analysis.write().await;
                 // 在重新索引之前清理不存在的文件
-                analysis.cleanup_nonexistent_files();
+                let removed_uris = analysis.cleanup_nonexistent_files();
                 analysis.reindex();
                 // Release lock immediately after reindex
                 drop(analysis);
+                // files that left the analysis must not keep their published diagnostics
+                if !lsp_features.supports_pull_diagnostic() {
+                    for uri in removed_uris {
+                        file_diagnostic.clear_push_file_diagnostics(uri);
+                    }
+                }
             }
 
             refresh_workspace_diagnostics(
